@@ -19,6 +19,13 @@ src=sys.argv[1]
 m=json.load(open(os.path.join(src,'meta.json')))
 d=m.get('demo_dir')
 if not d:
+    # the demo's README names the package to run: `go test ... ./some/pkg/`
+    import glob
+    for r in glob.glob(os.path.join(src,'demo','README*')):
+        mm=re.search(r'go test[^\n]*?\s\./([A-Za-z0-9_/.-]+?)/?(?:\s|$|`)',open(r).read())
+        if mm:
+            d=mm.group(1); break
+if not d:
     fs=m.get('files') or []
     p=open(os.path.join(src,'patch.diff')).read()
     mm=re.search(r'^\+\+\+ b/(\S+)',p,re.M)
